@@ -11,8 +11,9 @@ package sqlite
 //@   serves C16
 //@   trusted executes SQL through database/sql (relational semantics are outside any contract, see C06)
 //@   requires db != nil
-//@   writes ghost(lastquery, db)
+//@   writes ghost(lastquery, db), ghost(lastqueryfilters, db), ghost(lastqueryseed, db), ghost(lastquerymax, db)
 //@   ensures err == nil ==> events == g(lastquery, db)
+//@   ensures g(lastqueryfilters, db) == fs && g(lastqueryseed, db) == seed && g(lastquerymax, db) == maxLimit
 
 //@ func simpleSQLiteHandler.serveClientReqMsg
 //@   serves C16
@@ -22,6 +23,7 @@ package sqlite
 //@   ensures[C16] len(chanbuf(result0)) >= 1 && isEOSEFor(chanbuf(result0)[len(chanbuf(result0)) - 1], msg.SubscriptionID)
 //@   ensures[C16] forall(i, 0, len(chanbuf(result0)) - 1, typeis(chanbuf(result0)[i], *mocrelay.ServerEventMsg) && as(chanbuf(result0)[i], *mocrelay.ServerEventMsg).SubscriptionID == msg.SubscriptionID && as(chanbuf(result0)[i], *mocrelay.ServerEventMsg).Event == g(lastquery, h.db)[i])
 //@   ensures[C16] len(chanbuf(result0)) == 1 || len(chanbuf(result0)) == len(g(lastquery, h.db)) + 1
+//@   ensures[C16] g(lastqueryfilters, h.db) == msg.ReqFilters && g(lastqueryseed, h.db) == h.seed && g(lastquerymax, h.db) == h.opt.MaxLimit
 //@   loop 1 as i
 //@     lwrites contents(smsgCh)
 //@     invariant !isnil(smsgCh) && fresh(smsgCh) && !chanclosed(smsgCh) && chancap(smsgCh) == len(events) + 1 && chanhead(smsgCh) == 0
